@@ -3,6 +3,7 @@ package xmpp
 // C18 — keepalive: sent at the interval, closes a dead connection, stops with the session.
 
 import (
+	"crypto/tls"
 	"encoding/xml"
 	"errors"
 	"fmt"
@@ -71,6 +72,10 @@ type vfC18Case struct {
 	Interval int    `json:"interval_us"`
 	K        int    `json:"k"`
 	Err      string `json:"err,omitempty"` // fail: generic | timeout | eof | epipe
+	// e2e variants: "" (Resume called by the test after the loss), "in-handler" (Resume called synchronously inside the
+	// Disconnected event handler, as a StreamManager does), "tls" (both sessions negotiate STARTTLS: the keepalive
+	// must travel inside TLS and must not break the session)
+	Variant string `json:"variant,omitempty"`
 }
 
 // vfTimeoutErr is a net.Error whose Timeout() is true (what a write deadline or a websocket ping deadline gives)
@@ -286,9 +291,16 @@ func vfC18Run(run *vfkit.Run, cs *vfC18Case) {
 	case "e2e":
 		var pcc *vfPeerConn
 		mark := 0
+		useTLS := cs.Variant == "tls"
+		bytesOf := func(pc *vfPeerConn) string {
+			if useTLS {
+				return pc.TLSBytes()
+			}
+			return pc.ClearBytes()
+		}
 		// whitespace between elements reaches the tokenizer's caller only with the next '<': count raw bytes instead
 		rawKeepalives := func() (int, string) {
-			b := pcc.ClearBytes()
+			b := bytesOf(pcc)
 			if len(b) < mark {
 				return 0, ""
 			}
@@ -297,12 +309,16 @@ func vfC18Run(run *vfkit.Run, cs *vfC18Case) {
 		ready := make(chan struct{})
 		hold := make(chan struct{})
 		peer := vfNewPeer(func(pc *vfPeerConn) {
-			if _, err := pc.Negotiate(&vfNeg{Bind: true, ExpectPresence: pc.N == 0, SM: true, ExpectEnable: pc.N == 0, SMResume: "true", Resume: "resumed"}); err != nil {
+			o := &vfNeg{Bind: true, ExpectPresence: pc.N == 0, SM: true, ExpectEnable: pc.N == 0, SMResume: "true", Resume: "resumed"}
+			if useTLS {
+				o.TLS, o.TLSRequired, o.Domain = vfC04ServerTLS("valid-both"), true, vfC04Domain
+			}
+			if _, err := pc.Negotiate(o); err != nil {
 				return
 			}
 			if pc.N == 1 {
 				pcc = pc
-				mark = len(pc.ClearBytes())
+				mark = len(bytesOf(pc))
 				close(ready)
 			}
 			go func() {
@@ -321,10 +337,29 @@ func vfC18Run(run *vfkit.Run, cs *vfC18Case) {
 		})
 		defer peer.Stop()
 		defer close(hold)
-		c, obs, err := vfNewClient(vfClientOpt{Addr: peer.Addr(), Insecure: true, SM: true, SMResume: true, Keepalive: iv}, nil)
+		opt := vfClientOpt{Addr: peer.Addr(), Insecure: true, SM: true, SMResume: true, Keepalive: iv}
+		if useTLS {
+			opt.Insecure, opt.Jid, opt.Domain, opt.TLSConfig = false, "test@"+vfC04Domain, vfC04Domain, &tls.Config{RootCAs: vfGetPKI().Pool}
+		}
+		c, obs, err := vfNewClient(opt, nil)
 		if err != nil {
 			run.Inconclusive("newclient")
 			return
+		}
+		var resumeErr error
+		resumed := make(chan struct{})
+		if cs.Variant == "in-handler" {
+			var once sync.Once
+			c.SetHandler(func(e Event) error {
+				obs.onEvent(e)
+				if e.State.state == StateDisconnected {
+					once.Do(func() {
+						resumeErr = c.Resume() // synchronously, inside the goroutine that reported the loss
+						close(resumed)
+					})
+				}
+				return nil
+			})
 		}
 		if err := c.Connect(); err != nil {
 			run.Inconclusive("connect")
@@ -332,20 +367,46 @@ func vfC18Run(run *vfkit.Run, cs *vfC18Case) {
 		}
 		defer func() { go c.Disconnect() }()
 		if !vfWaitUntil(15*time.Second, func() bool { return obs.CountState(StateDisconnected) >= 1 }) {
-			run.Inconclusive("no-loss")
+			if useTLS && obs.CountState(StateSessionEstablished) >= 1 {
+				run.Inconclusive("no-loss")
+			} else {
+				run.Inconclusive("no-loss")
+			}
 			return
 		}
-		k0 := peer.Conns()[0].Keepalives()
-		if err := c.Resume(); err != nil {
+		k0 := strings.Count(bytesOf(peer.Conns()[0]), "\n")
+		if useTLS && k0 == 0 && cs.K >= 8 {
+			// the first session lived K/2 intervals and then the *peer* closed it: no keepalive inside TLS at all means
+			// the keepalive went somewhere else (or the session died of it before the peer closed)
+			run.Violation("C18/no-keepalive-inside-tls", fmt.Sprintf("interval %v: the STARTTLS session lived %d intervals and the peer read no keepalive byte inside TLS; clear-text bytes after <proceed/>: %q", iv, cs.K/2, vfClip2(peer.Conns()[0].ClearBytes(), 60)), cs)
+			return
+		}
+		if cs.Variant == "in-handler" {
+			select {
+			case <-resumed:
+			case <-time.After(20 * time.Second):
+				run.Inconclusive("resume-in-handler-watchdog")
+				return
+			}
+			if resumeErr != nil {
+				run.Inconclusive("resume")
+				return
+			}
+		} else if err := c.Resume(); err != nil {
 			run.Inconclusive("resume")
 			return
 		}
 		<-ready
+		lossesBefore := obs.CountState(StateDisconnected)
 		ok := vfWaitUntil(time.Duration(80*cs.K)*iv+5*time.Second, func() bool { n, _ := rawKeepalives(); return n >= cs.K })
 		nk, raw := rawKeepalives()
+		if d := obs.CountState(StateDisconnected); d > lossesBefore {
+			run.Violation("C18/idle-session-lost-while-keepalive-runs:"+cs.Variant, fmt.Sprintf("interval %v: the peer neither sent nor closed anything, yet the session was reported lost (%d keepalive bytes seen; errors %v)", iv, nk, obs.Errors()), cs)
+			return
+		}
 		if !ok {
 			if nk < cs.K/4 {
-				run.Violation("C18/no-keepalive-on-wire:after-resume", fmt.Sprintf("interval %v: %d keepalive bytes on the resumed connection (first connection: %d)", iv, nk, k0), cs)
+				run.Violation("C18/no-keepalive-on-wire:after-resume", fmt.Sprintf("interval %v, variant %q: %d keepalive bytes on the resumed connection (first connection: %d)", iv, cs.Variant, nk, k0), cs)
 			} else {
 				run.Inconclusive("e2e-slow-machine")
 			}
@@ -355,6 +416,9 @@ func vfC18Run(run *vfkit.Run, cs *vfC18Case) {
 		if strings.Trim(raw, "\n") != "" {
 			run.Violation("C18/keepalive-not-whitespace", fmt.Sprintf("the idle session carried %q", vfClip2(raw, 200)), cs)
 			return
+		}
+		if cs.Variant != "" {
+			run.Count("e2e_sessions_"+cs.Variant, 1)
 		}
 		run.Count("keepalive_bytes_seen", int64(nk+k0))
 		run.Count("e2e_sessions", 1)
@@ -387,6 +451,8 @@ func TestVf_C18(t *testing.T) {
 	}
 	for i := 0; i < vfkit.Pick(4, 40); i++ {
 		cases = append(cases, &vfC18Case{Mode: "e2e", Interval: []int{5000, 10000, 20000, 40000}[i%4], K: 10})
+		cases = append(cases, &vfC18Case{Mode: "e2e", Interval: []int{5000, 10000, 20000, 40000}[i%4], K: 10, Variant: "in-handler"})
+		cases = append(cases, &vfC18Case{Mode: "e2e", Interval: []int{10000, 20000, 40000, 5000}[i%4], K: 10, Variant: "tls"})
 		cases = append(cases, &vfC18Case{Mode: "clean-close", Interval: []int{5000, 10000, 20000, 40000}[i%4], K: 4})
 		cases = append(cases, &vfC18Case{Mode: "half-open", Interval: []int{5000, 10000, 20000, 40000}[i%4], K: 4})
 	}
